@@ -419,7 +419,9 @@ pub fn build(root: &Node, cfg: &LayoutCfg, rng: &mut Rng) -> Vec<u8> {
 
 const NAMES: &[&str] = &["a", "B", "c", "Zeta", "alpha", "ALPHb", "x1", "x10", "x2", "ß", "ǅx", "éa", "Éb", "日本", "𐐀𐐁", "\u{E000}q", "long name with spaces.", "Data", "data2", "~tmp", "0", "00", "Ab", "aC",
     // ASCII characters between 'Z' and 'a' and above 'z': their place relative to letters depends on the direction of case folding
-    "a_", "_b", "[x", "^y", "`q", "{z", "_bc", "Mbc", "m]c"];
+    "a_", "_b", "[x", "^y", "`q", "{z", "_bc", "Mbc", "m]c",
+    // the longest legal names: 31 UTF-16 units (length field 64), with and without a surrogate pair, and 30 units
+    "abcdefghijklmnopqrstuvwxyz01234", "ABCDEFGHIJKLMNOPQRSTUVWXYZ012\u{1F600}", "abcdefghijklmnopqrstuvwxyz0123"];
 
 /// a random logical tree
 pub fn gen_tree(rng: &mut Rng, max_entries: usize, big: bool) -> Node {
